@@ -56,7 +56,7 @@ PROPS = {
         "assumptions": ["RefCell's dynamic borrow state is not modelled by Verus (a double borrow_mut would panic); Kani executes the real RefCell"],
     },
     "C07": {
-        "verus": ["pair_pop", "values_num", "interp_tail", "repl_complete", "macro_transform", "lexer_pos"],
+        "verus": ["pair_pop", "values_num", "interp_tail", "repl_complete", "macro_transform", "lexer_pos", "base_cmp"],
         "kani": ["values"], "native": ["panic_probe"],
         "level": "proof",
         "explanation": "Panic-freedom (no overflow, no failing unwrap/expect, no reachable todo!/unreachable!/panic!, no out-of-bounds index) "
@@ -107,12 +107,12 @@ PROPS = {
         "assumptions": ["functional oracle for the opaque evaluator: one evaluation of the test and two are not distinguished"],
     },
     "C08": {
-        "verus": ["interp_tail", "values_num", "valref_mut"], "kani": ["values"], "native": ["tail_arity_witness"],
+        "verus": ["interp_tail", "values_num", "valref_mut", "base_cmp"], "kani": ["values"], "native": ["tail_arity_witness"],
         "level": "proof",
         "explanation": "The argument-count test is proved to hold before EVERY hand-over to apply_scheme_procedure / a builtin body in the "
                        "trampoline loop (first call and every tail call), and an unacceptable count is proved to yield the ArgumentMissMatch "
                        "kind; division by exact zero is proved to be the DivisionByZero error (C09 unit).",
-        "unverified": _TAIL_UNVERIFIED + ["unbound variables (LexicalScope over RefCell<HashMap>), expect_* type tests on Value payloads, "
+        "unverified": _TAIL_UNVERIFIED + ["unbound variables (LexicalScope over RefCell<HashMap>), the builtins' use of the (proved) expect_* type tests, "
                                           "vector index checks, 'keeps exactly the effects completed before the error' (a statement about histories)"],
         "assumptions": ["library_map registers every builtin body with its own parameter list (axiom_builtin_table)"],
     },
@@ -139,13 +139,15 @@ PROPS = {
                         "Rust's f32 + - * / abs floor ceil are the IEEE-754 binary32 operations"],
     },
     "C10": {
-        "verus": ["values_num"], "kani": ["values"], "native": [],
+        "verus": ["values_num", "base_cmp"], "kani": ["values"], "native": [],
         "level": "proof",
         "explanation": "PartialEq::eq / PartialOrd::partial_cmp / exact_eqv of Number are proved to be the order of the rationals "
                        "on every pair of representations with positive denominators (all i32), and the comparison of the "
-                       "converted operands when one is inexact.",
-        "unverified": ["comparison chains and max/min folds of the builtins (base.rs, macro-generated)",
-                       "`<`, `<=`, `>`, `>=` are std's default methods derived from partial_cmp (trusted std)"],
+                       "converted operands when one is inexact -- for ALL operands, so Number obeys its eq/partial_cmp specs and the derived "
+                       "operators == < > <= >= are proved to follow (witness_operators). The five macro-generated chains = < > <= >= of "
+                       "base.rs are proved to examine their arguments left to right and to return the conjunction of the adjacent pairs.",
+        "unverified": ["max / min (first_of_order!: try_fold with a closure) and the eqv? builtin's dispatch over Values",
+                       "rule X4': the chains are verified at Vec<Value<R>>; production passes a SmallVec (same sequence of items)"],
         "assumptions": ["R's == and partial_cmp are functions of their operands (obeys_eq_spec / obeys_partial_cmp_spec)"],
     },
 }
